@@ -1,5 +1,6 @@
 (* Invariants of the reachable states of model/Teardown.v and the step-level facts behind the
    theorems of C04 and C06. *)
+From Coq Require Import FinFun.
 From Verif Require Import Common Ownership Ownership_proofs Teardown Teardown_proofs OwnSpec.
 Open Scope N_scope.
 
